@@ -2426,6 +2426,11 @@ def check_C12(tier, seed):
     bt = run_tlc("Backtrack.tla", cfg, workers=12, timeout=3000, tag="C12_bt", heap="10g")
     if not bt.ok:
         raise ToolError("Backtrack.tla: " + str(bt.error))
+    # self-test of the specification: the analysis as it was on the pinned tree (non-monotone
+    # update) must be refuted by the same properties
+    pinned = run_tlc("BacktrackPinned.tla", "MC_BacktrackPinned.cfg", workers=4, timeout=600, tag="C12_pinned")
+    if pinned.ok or "violated" not in (pinned.error or ""):
+        raise ToolError("Backtrack.tla's properties no longer refute the pinned non-monotone variant: %s" % (pinned.error or "no error")[:300])
     nm = run_tlc("MC_Names.tla", "MC_Names.cfg", workers=4, timeout=600, tag="C12_names")
     if not nm.ok:
         raise ToolError("Names.tla: " + str(nm.error))
@@ -2541,6 +2546,7 @@ def check_C12(tier, seed):
         "traces_validated_against_impl": cov.get("traces_validated_against_impl", 0) + n_ok + names_ok,
         "definitions_expanded_twice": len(progs), "expansions_ok": n_ok, "slowest_expansion_ms": slowest,
         "item_name_sets_matching_scheme": names_ok,
+        "pinned_variant_refuted_by_spec": True,
         "scenarios_compiled_and_run": n_sc, "scenarios": [n_ for n_, _ in C12_SCENARIOS],
         "family_sample_compiled_by_rustc": len(sample) - len(failures),
         "rule": "Backtrack.tla: termination (liveness under weak fairness), monotonicity and correctness "
